@@ -107,7 +107,7 @@ _ADD3 = {
  "C11": " rows-buffer-ends-at-last-offset (from_binary) and raw-validity-needs-offset (get_bit on a NullBuffer's raw bytes uses its bit offset).",
  "C12": " ree-coordinates (slice-relative run ends are never combined with the absolute offset).",
 }
-_ALL = " relation-kept: ratchet against a comparison between the same two named quantities that starts splitting {<, ==, >} differently (>= turned into >). accumulator-reset-kept / accumulation-kept / mustpass-kept: ratchets against a reset hoisted out of a loop, `|=` turned into `=`, and a new successful exit that bypasses the function's must-pass callees. influence-kept: for every named intermediate value of every function in the crates this property is anchored in, each parameter (with field path) that could influence it on the reference tree still can, while function, variable and parameter exist (ratchet against dropped operands)."
+_ALL = " relation-kept: ratchet against a comparison between the same two named quantities that starts splitting {<, ==, >} differently (>= turned into >). accumulator-reset-kept / accumulation-kept / mustpass-kept: ratchets against a reset hoisted out of a loop, `|=` turned into `=`, and a new successful exit that bypasses the function's must-pass callees. influence-kept: for every named intermediate value of every function in the crates this property is anchored in, each parameter (with field path) that could influence it on the reference tree still can, while function, variable and parameter exist (ratchet against dropped operands). precondition-kept: every condition edge (comparison of named quantities / boolean call on a named receiver, with its outcome) that dominated all call sites of a callee in a function on the reference tree still dominates them (ratchet against a fast-path precondition weakened from `a && b` to `a || b`, a dropped guard, a call hoisted out of its guard)."
 for _k, _v in _ADD.items():
     CLAIMED[_k]["text"] = CLAIMED[_k]["text"].rstrip() + _v
 for _k, _v in _ADD2.items():
